@@ -4,6 +4,7 @@ import Spine.RaceRW
 import Spine.LockTables
 import Spine.LockRW
 import Spine.LockObs
+import Spine.RaceHB
 import Spine.Generated.Locks
 /-!
 # C17 — concurrent use is free of data races and of deadlocks on the stack's own locks
@@ -13,7 +14,8 @@ Property theorems only. Two layers:
 * **abstract** (hand-written models `Spine.Lock`, `Spine.Race`, `Spine.RaceRW`, bridge
   `Spine.LockTables`; proved once, for every number of threads, mutexes, locations and every
   trace): `c17_ranked_no_deadlock`, `c17_guarded_accesses_ordered`, `c17_guarded_trace_ordered`,
-  `c17_rw_guarded_accesses_ordered` (reader/writer locks);
+  `c17_rw_guarded_accesses_ordered` (reader/writer locks), `c17_guarded_no_data_race` (happens-before
+  relation and data race defined, `Spine.RaceHB`), `c17_disciplined_fields_no_data_race` (instance);
 * **instances over the regenerated tables** `Spine.Generated.Locks` (written by `go/lockgraph`
   from the tree under test on every run; `decide`, so a code change that alters a row re-checks
   them): `c17_lock_order_ranked`, `c17_no_lock_leak`, `c17_guarded_by`, `c17_common_lock_sound`,
@@ -304,6 +306,45 @@ theorem c17_disciplined_fields_ordered (f : Nat) (hf : f ∈ sharedFields) (hd :
         simp only [rwFields, List.mem_filter]
         exact ⟨hf, by simp [hm, hx]⟩
     exact ⟨m, guarded_trace_ordered m f t1 t2 w1 w2 hne later mid earlier hwf (ht f m hm hex)⟩
+
+/-- **No data race, in the sense of the memory model (abstract).** With happens-before defined as
+    the transitive closure of program order and "an Unlock is synchronised before every later Lock
+    of the same mutex" (`RaceHB.HB`) and a data race as two conflicting accesses by different threads
+    not ordered by it (`RaceHB.DataRace`): a location all of whose accesses are made under one mutex
+    has no data race, in every trace respecting mutual exclusion — all schedules, any number of
+    threads. -/
+theorem c17_guarded_no_data_race (m x : Nat) (tr : List Race.Ev) (hwf : Race.WF tr)
+    (hg : Guarded m x tr) : ¬ RaceHB.DataRace tr x :=
+  RaceHB.guarded_no_data_race m x tr hwf hg
+
+/-- non-vacuity: `DataRace` is satisfiable — two unguarded writes by different threads race — and
+    the guarded example trace satisfies the hypotheses -/
+example : Race.WF RaceHB.racy ∧ RaceHB.DataRace RaceHB.racy 3 := RaceHB.racy_has_data_race
+example : ¬ RaceHB.DataRace exTrace 3 :=
+  c17_guarded_no_data_race 7 3 exTrace (by simp [exTrace, Race.WF, Race.owner])
+    (by simp [exTrace, Race.owner, Guarded])
+
+/-- **No data race on a disciplined field (instance, happens-before form).** In every trace that
+    respects mutual exclusion and the guarded-by table there is no data race on a shared field that
+    is not listed as undisciplined. PARTIAL: exclusive-mutex model, so `rwFields` (common lock held
+    in shared mode by some reads) are excluded here — for them `c17_disciplined_fields_ordered_rw`
+    gives the release/acquire witness, a happens-before RELATION over the reader/writer model is
+    not defined; nothing about `undisciplined` or memory the analyser does not see. -/
+theorem c17_disciplined_fields_no_data_race (f : Nat) (hf : f ∈ sharedFields) (hd : f ∉ undisciplined)
+    (hrw : f ∉ rwFields) (tr : List Race.Ev) (hwf : Race.WF tr) (ht : TableGuarded tr) :
+    ¬ RaceHB.DataRace tr f := by
+  have hc := c17_guarded_by f hf hd
+  cases hm : commonLock f with
+  | none => exact absurd hm hc
+  | some m =>
+    have hex : exclGuardedBy f m = true := by
+      cases hx : exclGuardedBy f m with
+      | true => rfl
+      | false =>
+        exfalso; apply hrw
+        simp only [rwFields, List.mem_filter]
+        exact ⟨hf, by simp [hm, hx]⟩
+    exact RaceHB.guarded_no_data_race m f tr hwf (ht f m hm hex)
 
 /-- a reader/writer trace respects the guarded-by table: every access to a field with a common lock
     is protected by it — writes under the exclusive hold, reads under some hold; that the table's
